@@ -29,6 +29,9 @@ func (fr *Frame) dryRecord(li *loopInfo, es *State) {
 	if es.epoch != hdr.epoch {
 		rc.dryAll = true
 	}
+	if es.gepoch != hdr.gepoch {
+		rc.dryAllGhost = true
+	}
 	for k, v := range es.heap {
 		if hv, ok := hdr.heap[k]; !ok || hv != v {
 			rc.dryMods[k] = true
@@ -109,6 +112,9 @@ func (fr *Frame) cutLoop(li *loopInfo, st *State, preds []*ssa.BasicBlock, pstat
 		if rc.dryAll {
 			// unknown code runs in the body: ordinary memory is arbitrary at the cut ...
 			vc.havocAll(st)
+		}
+		if rc.dryAllGhost {
+			vc.havocAllGhost(st)
 		}
 		{
 			// ... and so is every family the body assigns (ghost state included, which unknown
@@ -238,9 +244,10 @@ func (fr *Frame) backEdge(li *loopInfo, from *ssa.BasicBlock, es *State) {
 			continue
 		}
 		if fr.dry == 0 {
-			vc.instantiateForGoal(t, sks)
+			vc.obligeHinted(es, "inv_keep", fr.loopName(li)+":"+clauseLabel(inv), t, sks, li.pos, inv.Text)
+		} else {
+			vc.oblige(es, "inv_keep", fr.loopName(li)+":"+clauseLabel(inv), t, li.pos, inv.Text)
 		}
-		vc.oblige(es, "inv_keep", fr.loopName(li)+":"+clauseLabel(inv), t, li.pos, inv.Text)
 	}
 	// per-iteration postconditions: old() is the state at the start of this iteration
 	for _, ie := range li.spec.IterEns {
@@ -252,8 +259,7 @@ func (fr *Frame) backEdge(li *loopInfo, from *ssa.BasicBlock, es *State) {
 			continue
 		}
 		if fr.dry == 0 {
-			vc.instantiateForGoal(t, sks)
-			vc.oblige(es, "iter_post", fr.loopName(li)+":"+clauseLabel(ie), t, li.pos, ie.Text)
+			vc.obligeHinted(es, "iter_post", fr.loopName(li)+":"+clauseLabel(ie), t, sks, li.pos, ie.Text)
 		}
 	}
 	if li.spec.Decreases != nil {
